@@ -636,6 +636,53 @@ def token_expires_later(ctx, s3):
     return bad
 
 
+def store_inference(ctx):
+    """The chunk store a data set gets when it is opened with an S3 endpoint (the s3_endpoint_url override, or the
+    endpoint recorded in telstate): the retry configuration, timeout and token given by the caller are the ones in
+    force, so the budget of the property is the configured one and a bad token is refused before any request."""
+    import urllib.parse as up
+    from katdal.chunkstore_s3 import InvalidToken, S3ChunkStore
+    from katdal.datasources import infer_chunk_store
+    bad = []
+    now = int(time.time())
+    telstate = {'chunk_info': {'correlator_data': {'prefix': 'cb-sdp-l0'}}, 's3_endpoint_url': 'http://127.0.0.1:9'}
+    url_parts = up.urlparse('http://archive.invalid/cb/cb_sdp_l0.rdb')
+    for how in ('override', 'recorded'):
+        kw = dict(s3_endpoint_url='http://127.0.0.1:9') if how == 'override' else {}
+        for retries in (0, 4, (1, 3)):
+            case = dict(kind='store-inference', how=how, retries=str(retries))
+            what = None
+            try:
+                store = infer_chunk_store(url_parts, telstate, retries=retries, timeout=(1.5, 2.5), **kw)
+                want = S3ChunkStore('http://127.0.0.1:9', retries=retries, timeout=(1.5, 2.5))
+                if not isinstance(store, S3ChunkStore):
+                    what = f'the inferred store is a {type(store).__name__}'
+                elif store_budget(store) != store_budget(want) or tuple(store.timeout) != (1.5, 2.5):
+                    what = (f'data set opened with retries={retries}, timeout=(1.5, 2.5) ({how} S3 endpoint): the chunk store '
+                            f'has budget {store_budget(store)[0]} and timeout {store.timeout}, the configured one is '
+                            f'{store_budget(want)[0]}')
+            except Exception as e:   # noqa: BLE001
+                what = f'inferring the chunk store ({how} endpoint, retries={retries}) raised {type(e).__name__}: {str(e)[:80]}'
+            ctx.tag('store-inference')
+            ctx.count(('store-inference', how, str(retries)), True, sample={'store-inference': how})
+            if what:
+                bad.append((case, what))
+        # an expired token is refused when the store is built
+        tok = build_token(dict(nparts=3, hdr='ES256', sig='A' * 86, payload='obj', exp='past', prefix=['cb-sdp-l0']), now)
+        case = dict(kind='store-inference', how=how, token='expired')
+        try:
+            infer_chunk_store(up.urlparse('https://archive.invalid/cb/cb_sdp_l0.rdb'),
+                              dict(telstate, s3_endpoint_url='https://archive.invalid'), token=tok,
+                              **(dict(s3_endpoint_url='https://archive.invalid') if how == 'override' else {}))
+            bad.append((case, f'a data set opened with an expired token ({how} S3 endpoint) got a chunk store: the token '
+                              f'is not refused before requests are sent'))
+        except InvalidToken:
+            pass
+        except Exception as e:   # noqa: BLE001
+            bad.append((case, f'expired token ({how} endpoint): {type(e).__name__} instead of InvalidToken'))
+    return bad
+
+
 def token_model_line(case):
     d, now = case['tok'], case['now']
     hdr, siglen, sigok, claims = token_model_args(d, now)
@@ -904,10 +951,14 @@ def gen_bucket_cases(ctx):
         if bs != 'm':
             cases.append([call(bs, wl=[('truncate', 7)], spec=spec404(bs, 0, 2))])
             cases.append([call(bs, wl=[('reset', 20), ('status', a)], spec=spec404(bs, 0, 3))])
-    # listing faults beyond the documented rule (mirror model only, advisory)
-    cases.append([call('n', wl=[('status', a), ('status', a)])])
+    # the listing of an existing, non-empty bucket hit by transient faults BEYOND the budget (b11: one status retry,
+    # one read retry): as for the chunk request itself, transient faults beyond the budget are a server glitch
+    # (a missing chunk), not an unavailable store
+    cases.append([call('n', wl=[('status', a), ('status', a)], spec=['glitch', 2])])
+    cases.append([call('n', wl=[('truncate', 3), ('truncate', 3)], spec=['glitch', 2])])
+    cases.append([call('n', wl=[('reset', 5), ('reset', 5)], spec=['glitch', 2])])
+    # a listing that is refused is beyond the documented rule (mirror model only, advisory)
     cases.append([call('n', wl=[('status', 403)])])
-    cases.append([call('n', wl=[('truncate', 3), ('truncate', 3)])])
     # the cache: verified by a first call, later calls do not list again whatever the bucket became
     for later in 'men':
         cases.append([call('n', spec=spec404('n', 0)), call(later, spec=spec404(later, 1)),
@@ -1211,6 +1262,7 @@ def run(ctx):
         cases += gen_misc_cases(ctx)
         bad = evaluate(ctx, s3, cases)
         bad += token_expires_later(ctx, s3)
+        bad += store_inference(ctx)
         if not bad and not build['build_ok']:
             ctx.rng.seed(ctx.seed + 7919)
             bad = evaluate(ctx, s3, gen_word_cases(ctx) + gen_bucket_cases(ctx))
@@ -1230,7 +1282,8 @@ def replay(ctx, rep):
     for k in ('impl', 'spec', 'mirror'):
         case.pop(k, None)
     with FastFakeS3() as s3, _no_backoff():
-        found = token_expires_later(ctx, s3) if case.get('kind') == 'token-expires-later' else evaluate(ctx, s3, [case])
+        found = (token_expires_later(ctx, s3) if case.get('kind') == 'token-expires-later' else
+                 store_inference(ctx) if case.get('kind') == 'store-inference' else evaluate(ctx, s3, [case]))
         for c, v in found:
             ctx.violation(c, v)
         return common.finish(ctx, build, RULE, CHECKER, TRUSTED)
